@@ -574,8 +574,9 @@ UNITS.append(Unit("ctx.yield_identity", "identity.c", defines=["RSOE_MEMBERS=" +
 # ---- C01 unit reused (added after seeded change C12-4 was missed): "each task runs on a stack of the size configured for its
 # ---- stack-size class" needs `thread_stacksize::current` (= the spawner's class) to be resolved in the spawning task's context,
 # ---- i.e. by thread_queue::create_thread before the description is staged; that is a postcondition of the C01 unit
-_c01 = {"__name__": "c01_reuse"}
-exec(compile(open("/verif/specs/C01/spec.py").read(), "/verif/specs/C01/spec.py", "exec"), _c01)
+_c01 = {"UNITS": [], "VX_NO_REUSE": True, "__name__": "c01_reuse"}
+if not globals().get("VX_NO_REUSE"):     # reuse is never transitive: the other spec is loaded without ITS reuse blocks (no cycles)
+    exec(compile(open("/verif/specs/C01/spec.py").read(), "/verif/specs/C01/spec.py", "exec"), _c01)
 for _u in _c01["UNITS"]:
     if _u.name in ("hops.tq.create_thread", "hops.heap.create_thread_object"):
         _u.name = "c01." + _u.name
@@ -609,8 +610,9 @@ UNITS.append(Unit("heap.on_start_thread", "prealloc.c", enforce="on_start_thread
 # ---- C16 unit reused (added after seeded change C12-7 was missed): "the size configured for its stack-size class" is the cached
 # ---- small/medium/large/huge_stacksize of runtime_configuration, which reconfigure() must recompute from the merged ini data
 # ---- (thread_manager copies them into thread_queue_init_parameters; create_thread_object sizes every stack from those)
-_c16 = {"__name__": "c16_reuse"}
-exec(compile(open("/verif/specs/C16/spec.py").read(), "/verif/specs/C16/spec.py", "exec"), _c16)
+_c16 = {"UNITS": [], "VX_NO_REUSE": True, "__name__": "c16_reuse"}
+if not globals().get("VX_NO_REUSE"):     # reuse is never transitive: the other spec is loaded without ITS reuse blocks (no cycles)
+    exec(compile(open("/verif/specs/C16/spec.py").read(), "/verif/specs/C16/spec.py", "exec"), _c16)
 for _u in _c16["UNITS"]:
     if _u.name == "rtcfg.reconfigure":
         _u.name = "c16." + _u.name
